@@ -79,12 +79,21 @@ def r1b_mechanism(rep, ctx):
                 info = alt[1]
                 from_map = any(s == ("field", "unit_to_unit_info") for s in walk(info))
                 kinds.setdefault(alt[2], []).append((r, st, from_map))
+            elif alt[0] == "call" and alt[1] == ("field", "GetQuantityType") and alt[2]:
+                # the quantity type looked up through the public getter: same kind as info.quantity_type
+                kinds.setdefault("quantity_type", []).append((r, st, True))
+            elif alt == ("const", None):
+                pass
+            else:
+                kinds.setdefault("other", []).append((r, st, show(alt, 80)))
     key = "GetDefaultCategory:order"
     problems = []
     if "default_category" not in kinds:
         problems.append("never returns the unit's own default_category")
     if "quantity_type" not in kinds:
         problems.append("never falls back to the category named like the quantity type")
+    for r, st, what in kinds.get("other", []):
+        problems.append("can return %s, which is neither the unit's default_category nor its quantity type" % what)
     if not problems:
         for r, st, from_map in kinds["default_category"] + kinds["quantity_type"]:
             if not from_map:
